@@ -98,6 +98,7 @@ type Ctx struct {
 	instDone  map[string]bool
 	inQuant   int
 	coverCalls bool
+	privRefs   []privRef
 }
 
 func newCtx(eng *Engine, mode Mode, fnKey string) *Ctx {
@@ -446,7 +447,31 @@ func (c *Ctx) refAxioms(heap, key string, bound string) {
 	}
 }
 
+type privRef struct {
+	key string
+	ref string
+}
+
 func (c *Ctx) havocAll(st *State, keepCells bool) {
+	// objects allocated by this function that have not escaped (never stored, passed to a
+	// call or captured - only returned) cannot be touched by the unknown code: keep them
+	type saved struct {
+		pr  privRef
+		val string
+	}
+	var keep []saved
+	for _, pr := range c.privRefs {
+		if _, ok := c.heapSorts[pr.key]; !ok {
+			continue
+		}
+		rootSort := strings.TrimSuffix(strings.TrimPrefix(c.heapSorts[pr.key], "(Array Int "), ")")
+		keep = append(keep, saved{pr, c.def("priv", rootSort, fmt.Sprintf("(select %s %s)", c.heapSym(st, pr.key), pr.ref))})
+	}
+	defer func() {
+		for _, k := range keep {
+			st.heaps[k.pr.key] = c.def("heap", c.heapSorts[k.pr.key], fmt.Sprintf("(store %s %s %s)", c.heapSym(st, k.pr.key), k.pr.ref, k.val))
+		}
+	}()
 	c.frames++
 	st.epoch = 1000 + c.frames*7 + c.n
 	for k := range st.heaps {
